@@ -60,6 +60,7 @@ func checkC17(p *Prog, res *Result, tier string) {
 	res.rule("C17-R2", "expiry deletes are guarded by revision <= timeoutRevision; marks are popped only when older than the TTL", 3)
 	res.rule("C17-R3", "index by compare-and-delete, versions by delete", 2)
 	res.rule("C17-R4", "no function of the scanner package reaches the event sink or the hub", 1)
+	res.rule("C17-R6", "expiry deletes follow the worker's failed-delete discipline with the record's user key, so that an event is removed wholly or its remaining records are left alone (C07-R4)", 2)
 	res.rule("C17-R5", "expiry disabled on engines with native TTL; TTL handed to the engine only on the classified branch", 2)
 
 	prefixF := p.structField("pkg/backend", "Config", "Prefix")
@@ -438,6 +439,97 @@ func checkC17(p *Prog, res *Result, tier string) {
 			res.bad("C17-R5", "backend: a TTL is handed to the creator at exactly one (classified) site", "-", fmt.Sprintf("%d CreateWithTTL call sites", n))
 		}
 	}
+	// every TTL operand handed to an engine batch is the constant 0 or comes (through parameters) from the TTL argument
+	// of a CreateWithTTL call in pkg/backend, i.e. from the classified site
+	{
+		p.buildCallers()
+		var roots func(v ssa.Value, d int, seen map[ssa.Value]bool) []ssa.Value
+		roots = func(v ssa.Value, d int, seen map[ssa.Value]bool) []ssa.Value {
+			v = p.resolveDeep(v)
+			if seen[v] || d > 8 {
+				return nil
+			}
+			seen[v] = true
+			switch x := v.(type) {
+			case *ssa.Parameter:
+				var out []ssa.Value
+				fn := x.Parent()
+				idx := sigParamIndex(x)
+				n := 0
+				for _, cs := range p.callers[fn] {
+					if idx < 0 {
+						continue
+					}
+					a := argForSigParam(cs, idx)
+					if a == nil {
+						continue
+					}
+					n++
+					out = append(out, roots(a, d+1, seen)...)
+				}
+				if n == 0 {
+					return []ssa.Value{v}
+				}
+				return out
+			case *ssa.Phi:
+				var out []ssa.Value
+				for _, e := range x.Edges {
+					out = append(out, roots(e, d+1, seen)...)
+				}
+				return out
+			case *ssa.Convert:
+				return roots(x.X, d+1, seen)
+			}
+			return []ssa.Value{v}
+		}
+		classified := map[ssa.Value]bool{}
+		for _, f := range p.AllFuncs {
+			if f.Pkg != p.ssaPkg("pkg/backend") {
+				continue
+			}
+			for _, c := range callsIn(f) {
+				if p.isCallToMethod(c, createTTL) && c.Common().IsInvoke() {
+					for _, rv := range roots(argForSigParam(c, 4), 0, map[ssa.Value]bool{}) {
+						classified[rv] = true
+					}
+				}
+			}
+		}
+		nOps := 0
+		for _, b := range p.batches() {
+			if strings.Contains(funcName(b.Fn), "pkg/storage/") {
+				continue
+			}
+			for _, op := range b.Ops {
+				if op.TTL == nil {
+					continue
+				}
+				nOps++
+				construct := fmt.Sprintf("%s: TTL operand of %s #%d", b.name(), op.Kind, nOps)
+				bad := ""
+				for _, rv := range roots(op.TTL, 0, map[ssa.Value]bool{}) {
+					if isZeroConst(rv) || classified[rv] {
+						continue
+					}
+					bad = rv.String()
+				}
+				if bad == "" {
+					res.ok("C17-R5", construct, p.pos(op.Call.Pos()), "constant 0 or the TTL of the classified create")
+				} else {
+					res.bad("C17-R5", construct, p.pos(op.Call.Pos()), "a TTL that does not come from the classified Event create reaches the engine ("+bad+"): keys that are not Events expire on engines with native TTL")
+				}
+			}
+		}
+	}
+	// ---- R6: the failed-delete discipline on the expiry chains (C07-R4) ----
+	sub7 := newResult("C07")
+	checkC07(p, sub7, tier)
+	for _, o := range sub7.Obls {
+		if o.Rule == "C07-R4" && strings.Contains(o.Construct, "expiry site") {
+			res.add("C17-R6", o.Rule+" "+o.Construct, o.Status, o.Pos, o.Detail)
+		}
+	}
+
 }
 
 func isListPop(f *ssa.Function) bool { return false }
